@@ -446,6 +446,146 @@ def r3_coercions(rule, root=None):
         rule.bad("coerce|f32", "f32::from_dynamic must accept f64 and i64", "%s:%s" % (LIB, ff[0]["ln"] if ff else "?"))
 
 
+def r4_resolver(rule, root=None):
+    """a name the script defined is never replaced by the engine's fallback (axes, constants): in `resolver`
+    every result other than Ok(None) lies on a path where `ctx.scope().contains(name)` is false, whatever
+    the spelling of that choice (if / else, early return, guarded match arms)"""
+    fn = A.find_fn(LIB, "resolver", root=root)
+    params = [A.binding_name(i["pat"]) for i in fn["sig"]["inputs"] if "pat" in i]
+    name = params[0]
+    test = "ctx.scope().contains(%s)" % name
+    found = {"fallback": 0, "bad": []}
+
+    # `match name { n if .. => }` gives the name another spelling
+    aliases = {name}
+    for m_ in A.find(fn["body"], "Match"):
+        if A.ident(A.strip(m_["e"])) == name:
+            for arm in m_["arms"]:
+                if arm["pat"].get("k") == "PIdent":
+                    aliases.add(arm["pat"]["name"])
+    tests = {"ctx.scope().contains(%s)" % a_ for a_ in aliases}
+
+    def is_test(c):
+        c = A.norm_cond(str(A.ftxt(A.strip(c))))
+        if c in tests:
+            return True
+        if c.startswith("!") and c[1:] in tests:
+            return False
+        return None
+
+    def lits(pat):
+        if pat.get("k") == "POr":
+            out = set()
+            for c_ in pat["cases"]:
+                l_ = lits(c_)
+                if l_ is None:
+                    return None
+                out |= l_
+            return out
+        if pat.get("k") == "PLit":
+            return {A.unparse(pat)}
+        return None
+
+    def leaf(e, guarded):
+        t = str(A.ftxt(e))
+        if t == "Ok(None)":
+            return
+        found["fallback"] += 1
+        if not guarded:
+            found["bad"].append(e)
+
+    def block(stmts, guarded):
+        for i, s_ in enumerate(stmts):
+            last = i == len(stmts) - 1
+            e = A.stmt_expr(s_)
+            if e is None:
+                continue
+            e = A.strip(e)
+            if e.get("k") == "If" and e.get("else") is None:
+                tv = is_test(e["cond"])
+                th = A.stmts_of(e["then"])
+                lst = A.strip(A.stmt_expr(th[-1]) or {}) if th else {}
+                expr(e["then"], guarded or tv is False)
+                if tv is True and lst.get("k") == "Return":
+                    guarded = True  # what follows runs only when the script did not define the name
+                continue
+            if e.get("k") == "Return":
+                if e.get("e") is not None:
+                    expr(e["e"], guarded)
+                return
+            if last and not s_.get("semi", True):
+                expr(e, guarded)
+
+    def expr(e, guarded):
+        e = A.strip(e)
+        k = e.get("k")
+        if k == "Block":
+            block(e["stmts"], guarded)
+        elif k == "If":
+            tv = is_test(e["cond"])
+            expr(e["then"], guarded or tv is False)
+            if e.get("else") is not None:
+                expr(e["else"], guarded or tv is True)
+        elif k == "Match":
+            covered_all = False
+            covered = set()
+            for arm in e["arms"]:
+                g = arm.get("guard")
+                tv = is_test(g) if g is not None else None
+                pl = lits(arm["pat"])
+                arm_guarded = guarded or covered_all or (pl is not None and pl <= covered) or tv is False
+                expr(arm["body"], arm_guarded)
+                if tv is True and str(A.ftxt(A.unblock(arm["body"]))) == "Ok(None)":
+                    if pl is None:
+                        covered_all = True
+                    else:
+                        covered |= pl
+        elif k == "Return":
+            if e.get("e") is not None:
+                expr(e["e"], guarded)
+        else:
+            leaf(e, guarded)
+
+    expr(fn["body"], False)
+    if found["fallback"] < 2:
+        rule.lost("the fallback results (axes, constants) of the variable resolver")
+        return
+    if found["bad"]:
+        for b in found["bad"]:
+            rule.bad("resolver|%s" % str(A.ftxt(b))[:40], "the variable resolver returns `%s` without first checking that the script did not define `%s` itself: a script variable of that name would be ignored" % (A.unparse(b)[:60], name), A.where(fn, b))
+    else:
+        rule.ok("resolver: all %d fallback results are reached only when the scope does not contain the name" % found["fallback"], file=LIB, line=fn["ln"])
+
+
+def r5_registration_order(rule, root=None):
+    """Rhai keeps the *last* function registered for a name and parameter list.  The one-argument form of a
+    shape whose only field is a list of trees (`union([..])`, `intersection([..])`) is claimed both by the
+    variadic reducer (which unions its arguments) and by the typed builder (which takes the array as the
+    field); the typed builder must be the one that stays, so it is registered after the reducers."""
+    fn0 = A.find_fn(SHAPES, "register_shape", root=root)
+    body = A.inline_helpers(fn0)
+    order = []
+    for c in A.find(body, "MethodCall"):
+        if c["method"] != "register_fn" or len(c["args"]) != 2:
+            continue
+        segs = A.path_segs(A.strip(c["args"][1])) or []
+        nm = segs[0] if segs else ""
+        if nm.startswith("build_reduce"):
+            order.append(("reduce", c))
+        elif nm.startswith("build_unique"):
+            order.append(("unique", c))
+    kinds = [k for k, _ in order]
+    if "reduce" not in kinds or "unique" not in kinds:
+        rule.lost("registration of the build_reduce* / build_unique* families in register_shape")
+        return
+    last_reduce = max(i for i, k in enumerate(kinds) if k == "reduce")
+    first_unique = min(i for i, k in enumerate(kinds) if k == "unique")
+    if last_reduce < first_unique:
+        rule.ok("typed builders are registered after the variadic reducers (%d + %d registrations)" % (kinds.count("reduce"), kinds.count("unique")), file=SHAPES, line=fn0["ln"])
+    else:
+        rule.bad("order|reduce-after-unique", "register_shape registers a variadic reducer after the typed builders: for a shape with one Vec<Tree> field the one-argument call `shape([a, b])` then unions the array instead of passing it as the field", A.where(fn0, order[last_reduce][1]))
+
+
 def run(ctx):
     r = ctx.rule("R1", "operators and functions are registered to their namesake, both operand orders, operands in source order; comparisons rejected", 69)
     ctx.guarded(r, r1_operator_tables)
@@ -453,3 +593,7 @@ def run(ctx):
     ctx.guarded(r, r2_sibling_builders)
     r = ctx.rule("R3", "coercions: array index -> component, vec2 -> vec3 takes z from the default, names -> namesakes", 12)
     ctx.guarded(r, r3_coercions)
+    r = ctx.rule("R4", "names defined by the script take precedence over the engine's axes and constants", 1)
+    ctx.guarded(r, r4_resolver)
+    r = ctx.rule("R5", "of two builders with the same call signature the typed one is registered last", 1)
+    ctx.guarded(r, r5_registration_order)
